@@ -8,6 +8,7 @@ payload (`agree`), and evaluate the Spec oracles (reference decoder + recovered/
 -/
 import Otel.C13.Parse
 import Otel.C13.ZipkinE2E
+import Otel.C13.ZipkinModel
 open Otel Otel.Wire Otel.C13 Otel.C13.Tree
 
 def tagIf (b : Bool) (t : String) : List String := if b then [t] else []
@@ -254,6 +255,7 @@ def stepLine (_ : Unit) (toks : List String) : Unit × Option Verdict :=
   | "metrics" :: _ :: _ :: rest => ((), stepMetrics rest obs)
   | "zipkin" :: _ :: _ :: rest => ((), stepZipkin rest obs)
   | "zipkinseq" :: _ :: _ :: rest => ((), stepZipkinSeq rest obs)
+  | "zipkinm" :: _ :: _ :: rest => ((), stepZipkinModel rest obs)
   | ["sens", _, _, field] => ((), stepSens field obs)
   | _ => ((), none)
 
